@@ -75,14 +75,14 @@ fn sample_docs() -> Vec<(String, DocD)> {
         name: "base".into(),
         height: 16,
         builtin: Some(0),
-        data: vec![],
+        data: vec![], sauce_name: None,
     });
     d.fonts.push(FontD {
         slot: 3,
         name: "custom".into(),
         height: 16,
         builtin: None,
-        data: (0..256 * 16).map(|i| (i * 7) as u8).collect(),
+        data: (0..256 * 16).map(|i| (i * 7) as u8).collect(), sauce_name: None,
     });
     doc::fill_cells(&mut rng, &mut d.layers[0], Chars::Printable, Colors::Palette(40), 0x3FF, 1, 70);
     let mut l2 = LayerD::plain(12, 5);
